@@ -6,6 +6,7 @@ package syncutil
 
 import (
 	stdsync "sync"
+	"sync/atomic"
 
 	real "go4.org/syncutil"
 
@@ -14,9 +15,49 @@ import (
 
 type (
 	Group = real.Group
-	Once  = real.Once
 	Sem   = real.Sem
 )
+
+// Once is go4.org/syncutil.Once over a Cond-based mutex: goroutines waiting
+// for the first caller (pkg/client's prefixOnce/discoOnce around a discovery
+// round trip) are then durably blocked, so a discovery that never returns is
+// reported as a hang of the simulated run instead of freezing the bubble.
+type Once struct {
+	mu      stdsync.Mutex
+	c       *stdsync.Cond
+	running bool
+	done    uint32
+}
+
+func (o *Once) Do(f func() error) error {
+	if atomic.LoadUint32(&o.done) == 1 {
+		return nil
+	}
+	o.mu.Lock()
+	if o.c == nil {
+		o.c = stdsync.NewCond(&o.mu)
+	}
+	for o.running {
+		o.c.Wait()
+	}
+	if o.done == 1 {
+		o.mu.Unlock()
+		return nil
+	}
+	o.running = true
+	o.mu.Unlock()
+	defer func() {
+		o.mu.Lock()
+		o.running = false
+		o.c.Broadcast()
+		o.mu.Unlock()
+	}()
+	err := f()
+	if err == nil {
+		atomic.StoreUint32(&o.done, 1)
+	}
+	return err
+}
 
 func NewSem(max int64) *Sem { return real.NewSem(max) }
 
